@@ -20,14 +20,16 @@ ASSUMPTIONS = ['the filter attributes of the parser object are not changed while
                '(sent to the model as out-of-range naturals)',
                'the stream is the list of objects the container parser yields (its own errors belong to C02/C03/C06)']
 
-CLASSES = [1, 3, 4, 7, 0x25, 0x31, 0xff]
-SUBBYTES = [0x00, 0x01, 0x0c, 0x40, 0xff]
+CLASSES = [1, 3, 4, 7, 0x25, 0x31, 0xff, 2, 5, 0xfe]              # with neighbours: 1-2-3-4-5, 0xfe-0xff
+SUBBYTES = [0x00, 0x01, 0x0c, 0x40, 0xff, 0x02, 0x0d, 0xfe]         # with neighbours: 0-1-2, 0x0c-0x0d, 0xfe-0xff
 TIDS = [0, 1, 7, 8, 0x1234, 2 ** 63, 2 ** 64 - 1]
 NAMES = ['launchd', 'kernel_task', 'a', '', 'Finder', '42', '0', 'naïve', '-3']
 
 
 def gen_eventid(rng):
-    return (rng.choice(CLASSES) << 24) | (rng.choice(SUBBYTES) << 16) | (rng.randrange(0, 0x4000) << 2)
+    # codes at both ends of a subclass / class range (first id, last id) as often as inner ones
+    code = rng.choice([0, 0, 1, 0x3fff, 0x3ffe, rng.randrange(0, 0x4000), rng.randrange(0, 0x4000)])
+    return (rng.choice(CLASSES) << 24) | (rng.choice(SUBBYTES) << 16) | (code << 2)
 
 
 def gen_items(rng, n, with_logs):
@@ -66,6 +68,10 @@ def gen_cfg(rng, items):
 
     classes = pick_list(present_cls, [2, 5, 0x21, 0], [256, 300, 0x0400, 2 ** 32, -1, -4])
     subs = pick_list(present_sub, [0x0101, 0x04ff, 0, 4], [65536, 0x040c00, 2 ** 40, -1])
+    for lst, present in ((classes, present_cls), (subs, present_sub)):      # touching ranges: k and k + 1 / k - 1 both listed
+        if lst and rng.random() < 0.35:
+            nb = [v + d for v in lst for d in (1, -1) if v + d in present] or [lst[0] + rng.choice([1, -1])]
+            lst.insert(rng.randrange(len(lst) + 1), rng.choice(nb))
     if classes and subs and rng.random() < 0.3:         # overlapping: a subclass inside a listed class
         subs.append((classes[0] << 8) | rng.choice(SUBBYTES) if classes[0] >= 0 else 0)
     r = rng.random()
